@@ -25,7 +25,7 @@ def Inc(sub):
 
 def fault_text(f):
     body = {"parse": "vd__q = 1 ) ;", "runtime": 'vd__q = 1 + "a";'}.get(f["kind"], "vd__m = [__LINE__, __FILE__];")
-    return " " * f["pad"] + body
+    return " " * f["pad"] + ('vd__s = "p""q"; ' if f.get("pre") else "") + body
 
 
 def el_text(el, nl, incname):
@@ -46,6 +46,8 @@ def el_text(el, nl, incname):
         return "#ifdef VD_UNDEFINED" + nl + ("vd__dead = 1 ) ;" + nl) * n + "#endif" + nl
     if k == "active":
         return "#ifndef VD_UNDEFINED" + nl + ("vd__p = 1;" + nl) * n + "#endif" + nl
+    if k == "inactivestr":
+        return "#ifdef VD_UNDEFINED" + nl + 'vd__dead = "l1' + nl + 'l2";' + nl + "#endif" + nl
     if k == "undef":
         return "#undef VD_A" + nl
     if k == "undefmissing":
@@ -92,7 +94,7 @@ def rand_layout(rng, n, depth):
     for _ in range(n):
         ch = rng.random()
         if ch < 0.25:
-            out.append(El(rng.choice(["plain", "lcomment", "define", "undef", "undefmissing"])))
+            out.append(El(rng.choice(["plain", "lcomment", "define", "undef", "undefmissing", "inactivestr"])))
         elif ch < 0.40:
             out.append(El("bcomment", rng.randint(1, 5)))
         elif ch < 0.55:
@@ -113,7 +115,7 @@ def random_sources(rng, n):
     for _ in range(n):
         out.append({"lay": rand_layout(rng, rng.randint(3, 8), 2), "crlf": rng.random() < 0.3,
                     "nest": [rand_layout(rng, rng.randint(0, 4), 1) for _ in range(rng.choice([0, 0, 1, 2]))],
-                    "fault": {"kind": rng.choice(["parse", "runtime", "linemacro"]), "pad": rng.randint(0, 4)}})
+                    "fault": (lambda k: {"kind": k, "pad": rng.randint(0, 4), "pre": 1 if k != "linemacro" and rng.random() < 0.3 else 0})(rng.choice(["parse", "runtime", "linemacro"]))})
     return out
 
 
